@@ -194,6 +194,16 @@ def handle (op : String) (a r : Json) : Except String Reply := do
         | some w => (false, w, "C14/torn-read")
         | none => (true, "", "")
     pure { m := m, prop := some holds, why := why, sig := sig }
+  | "scanlock" =>
+    if let some e := optField r "error" then throw s!"harness error: {e.compress}"
+    -- the package removes nothing but whole unit directories (regenerated fact): a look-up leaves the lock file in place
+    let keeps : Bool := Receptor.Facts.st_removals = "stdio_utils.go:os.RemoveAll(path)"
+    let spec := jObj [("known", Json.bool true), ("same_lock_file", Json.bool true)]
+    let m := if keeps then spec else jObj [("unmodelled", Json.str "the package removes or renames files next to a record")]
+    let holds := canonEq r spec
+    pure { m := m, prop := some holds,
+           why := if holds then "" else "looking up a unit that exists on disk replaced the lock file of its record while another process had it open: the two no longer exclude each other",
+           sig := if holds then "" else "C14/lock-file-replaced" }
   | _ => throw s!"bad-op status {op}"
 
 end Receptor.Drive.Status
